@@ -106,6 +106,13 @@ def gen_case(rng):
         cfg['agent_nodes']   = rng.choice([0, min(1, room)])
         cfg['service_nodes'] = 0
         cfg['blocked_cores'] = rng.choice([[], [], [0]])
+    # Slurm: what the batch environment says about GPUs (consulted only when nothing is configured)
+    cfg['env_gpus'] = None; cfg['env_gpu_ids'] = 0
+    if kind == 'slurm':
+        r = rng.random()
+        if r < 0.4:   cfg['env_gpus'] = rng.choice([0, 1, 2, 4, 8])
+        elif r < 0.6: cfg['env_gpu_ids'] = rng.choice([1, 2, 4])
+        if rng.random() < 0.3 and cfg['env_gpus'] is not None: cfg['env_gpu_ids'] = rng.choice([1, 3])     # both set
     return {'op': 'init', 'kind': kind, 'cfg': cfg, 'exec_vnode': exec_vnode,
             'lines': [None if x is None else x if isinstance(x, str) else
                       {'id': x, 'login': HOSTS[x][1], 'batch': HOSTS[x][2]} for x in raw],
@@ -169,6 +176,10 @@ def run_real(rp, case, scratch):
         os.environ['SLURM_NODELIST'] = ','.join(HOSTS[h['id']][0] for h in case['hosts'])
         if case['env_cpus']:
             os.environ['SLURM_CPUS_ON_NODE'] = str(case['env_cpus'])
+        if cfg.get('env_gpus') is not None:
+            os.environ['SLURM_GPUS_ON_NODE'] = str(cfg['env_gpus'])
+        if cfg.get('env_gpu_ids'):
+            os.environ[['SLURM_JOB_GPUS', 'SLURM_STEP_GPUS', 'GPU_DEVICE_ORDINAL'][cfg['env_gpu_ids'] % 3]] = ','.join(str(i) for i in range(cfg['env_gpu_ids']))
         if cfg['service_nodes']:
             open(os.path.join(d, 'services'), 'w').write('x')
         FakeProc.results = {HOSTS[i][0]: True for i in case['reach']}
@@ -253,6 +264,9 @@ def monitor(case, res, shared):
         down = [i for i, o in enumerate(n[2]) if o == 'down']
         if down != sorted(cfg['blocked_cores']):
             return ('blocked-cores-not-marked', '%s vs %s' % (down, cfg['blocked_cores']))
+        # the configured number of GPUs per node (when one is configured) is what every node gets
+        if cfg['gpn'] and len(n[3]) != cfg['gpn']:
+            return ('node-gpu-count-differs-from-configured', 'node %s has %d GPUs, %d configured' % (n[0], len(n[3]), cfg['gpn']))
         gdown = [i for i, o in enumerate(n[3]) if o == 'down']
         if gdown != sorted(cfg['blocked_gpus']):
             return ('blocked-gpus-not-marked', '%s vs %s' % (gdown, cfg['blocked_gpus']))
